@@ -371,7 +371,13 @@ func (state *inflate) readLitDistLens(ctx *dynamicHeaderReader, hdist, hlit int)
 
 			i := int(3 + ret)
 
-			if curr+i > end || prev == -1 {
+			limit := end
+			if &count[0] != &ctx.distCount[0] {
+				// still in the literal/length lengths: the unused slots between the last of them
+				// and the first distance length (at litLen) are not room for the run
+				limit -= int(litLen - litTableSize - hlit)
+			}
+			if curr+i > limit || prev == -1 {
 				err = errInvalidBlock
 				goto END
 			}
